@@ -8,7 +8,8 @@ META = {
     "text": "Coq theorems over the executable model of the JSONx printer, lexer, parser and encoder: every number "
             "literal, quoted string and key the printer can emit is lexed back as exactly one token covering the whole "
             "literal, and decoding the printed document yields the JSON text of the original value, for every nesting "
-            "of arrays and objects (induction on the value). Tied to the code by a translator of constants and by "
+            "of arrays and objects (induction on the value); the bytes Marshal returns are owned by the caller (origin of "
+            "every []byte result extracted from the source, heap model with caller writes). Tied to the code by a translator of constants and by "
             "differential runs of Marshal and Unmarshal (printer output, decoder output, strconv.Quote) evaluated in Coq.",
     "note": "Trusted: Coq kernel + vm_compute; translator gen/jsonx.go; harness + shim; strconv.Quote / Unquote and "
             "encoding/json are modelled and compared on every run, not verified; unicode.IsPrint and float "
